@@ -65,6 +65,11 @@ func (s *Translator) translateWith() error {
 			currentPart.projections.Constraints = resolvedConstraint
 		}
 
+		// Bindings exported by this WITH are materialized by its frame only once every item has been rendered:
+		// an item must still read its source binding from the frame that held it before the WITH (`with n, n as m`,
+		// `with a.name as b, b as a`), not from the frame that is being defined.
+		var materialized []*BoundIdentifier
+
 		for idx, projectionItem := range currentPart.projections.Items {
 			switch typedSelectItem := projectionItem.SelectItem.(type) {
 			case pgsql.CompoundIdentifier:
@@ -125,8 +130,8 @@ func (s *Translator) translateWith() error {
 						currentPart.projections.Items[idx].Alias = pgsql.AsOptionalIdentifier(projectedBinding.Identifier)
 					}
 
-					// Assign the frame to the binding's last projection backref
-					projectedBinding.MaterializedBy(currentPart.Frame)
+					// Assign the frame to the binding's last projection backref (after the loop)
+					materialized = append(materialized, projectedBinding)
 
 					// Reveal and export the identifier in the current multipart query part's frame
 					currentPart.Frame.Reveal(projectedBinding.Identifier)
@@ -144,8 +149,8 @@ func (s *Translator) translateWith() error {
 						// Track this projected item for scope pruning
 						projectedItems.Add(binding.Identifier)
 
-						// Assign the frame to the binding's last projection backref
-						binding.LastProjection = currentPart.Frame
+						// Assign the frame to the binding's last projection backref (after the loop)
+						materialized = append(materialized, binding)
 
 						// Reveal and export the identifier in the current multipart query part's frame
 						currentPart.Frame.Reveal(binding.Identifier)
@@ -156,6 +161,10 @@ func (s *Translator) translateWith() error {
 					}
 				}
 			}
+		}
+
+		for _, binding := range materialized {
+			binding.MaterializedBy(currentPart.Frame)
 		}
 
 		if !aggregatedItems.IsEmpty() {
